@@ -60,6 +60,27 @@ def seeded_variants():
     return out
 
 
+ALL_PROPS = ["C01", "C02", "C04", "C05", "C06", "C07", "C08", "C09", "C10", "C11", "C12", "C15", "C16", "C17"]
+
+
+def benign_variants():
+    """independently produced behaviour-preserving refactorings stored under /verif/benign/<id>/: every check must stay
+    silent on them (entries marked expect='limit' in meta.json are documented limits and are not replayed)"""
+    out = []
+    root = os.path.join(VERIF, "benign")
+    if not os.path.isdir(root):
+        return out
+    for d in sorted(os.listdir(root)):
+        mp = os.path.join(root, d, "meta.json")
+        pp = os.path.join(root, d, "patch.diff")
+        if os.path.exists(mp) and os.path.exists(pp):
+            m = json.load(open(mp))
+            if m.get("expect") == "silent":
+                out.append(dict(id="benign-" + d, props=list(ALL_PROPS), rule=None, expect="silent", edits=[], patch=pp,
+                                note="independent behaviour-preserving refactoring"))
+    return out
+
+
 def run_variant(v):
     src = os.environ.get("FORMULAE_SRC", "/repo")
     tmp = tempfile.mkdtemp(prefix="formulae_variant_")
@@ -75,7 +96,7 @@ def run_variant(v):
             return dict(id=v["id"], status="skipped", detail=err)
         env = dict(os.environ, FORMULAE_SRC=tmp, VERIF_EVIDENCE_DIR=os.path.join(tmp, "ev"))
         res = []
-        for prop in v["props"]:
+        for prop in (v["props"] if v.get("only_prop") is None else [v["only_prop"]]):
             p = subprocess.run(["/venv/bin/python", os.path.join(VERIF, "check.py"), prop, "--tier", "quick"],
                                capture_output=True, text=True, env=env, timeout=300)
             res.append((prop, p.returncode, p.stdout))
@@ -102,6 +123,8 @@ def run_variant(v):
 
 def run_all(prop=None, jobs=16, only=None, quiet=False):
     vs = [v for v in VARIANTS + seeded_variants() if (prop is None or prop in v["props"]) and (only is None or only in v["id"])]
+    # benign refactorings are replayed against the property being validated (against all 14 when no property is given)
+    vs += [dict(v, only_prop=prop) for v in benign_variants() if only is None or only in v["id"]]
     with cf.ThreadPoolExecutor(max_workers=jobs) as ex:
         results = list(ex.map(run_variant, vs))
     bad = [r for r in results if r["status"] == "FAILED"]
